@@ -11,14 +11,19 @@ RULE = ('flat cases: a data set of n sorted entries (group key, start, DNA seque
         'groupby on four kinds of key column (StringArray, EncodedRaggedArray, int, StringEncoding-encoded). genome cases: '
         'genomes of 1..4 chromosomes, chunked interval streams through Genome.get_intervals(stream) and bnp.compute for '
         'pileup, mask, pileup sum, histogram, (histogram,sum), values under windows, and mean(axis=0) / sum(axis=0) / np.sum of '
-        'those; get_reverse_complement as a streamable function without reduction. '
+        'those; values under STRANDED windows (strand symbols + - . , a . or + window placed over a non-palindromic signal) and their '
+        'mean(axis=0); arithmetic on the streamed pileup (30 expressions: - ** // % and comparisons with the plain value on the left '
+        'and on the right, node-with-node in both orders) queried by get_data / sum / histogram / values under windows; '
+        'get_reverse_complement as a streamable function without reduction. '
         'non-trivial = more than one chunk and some cut falls inside a group (flat) / inside a chromosome (genome)')
 EXHAUSTIVE = {'quick': False, 'thorough': False}
 TIE = ('translator+correspondence: translate/gen_c11.py regenerates the loop conditions, slice bounds, counter updates, '
        'component-wise additions, change-point comparison, shortcut test, group bounds and buffer-index tests from the source '
        '(Gen/C11.v), Bridge/C11.v proves them equal to the model kernels (theorem C11_source_tie); chunk_entries, chunk_lines, the streamable reductions, groupby+join_groupbys, iter_chromosomes walk and '
        'the computation-graph pull machine are evaluated inside Coq on the same chunking as the library')
-ASSUMPTIONS = ['np.histogram with integer data and exactly representable edges (bins divides hi-lo, or bins a power of two) '
+ASSUMPTIONS = ['arithmetic on tracks: intermediate GenomicArrayNodes each create an own chromosome-name stream node; the model keeps one '
+               '(node 6) — it only feeds get_data with the chromosome name',
+               'np.histogram with integer data and exactly representable edges (bins divides hi-lo, or bins a power of two) '
                'bins by floor((x-lo)*bins/(hi-lo)) with the last edge inclusive (checked against the library on every case)',
                'per-chromosome operations (pileup, mask, slicing a track) are modelled by their dense meaning; their RLE '
                'algorithms are the subject of C08/C09',
